@@ -576,14 +576,14 @@ def _opaque_reads(ex, name, argv, st):
     return reads
 
 
-UF_RET = {"uf_isWorkingTime": T.Bool, "uf_tzoff": T.Real, "uf_sbidx": T.Int, "uf_minsum": T.Int}
+UF_RET = {"uf_isWorkingTime": T.Bool, "uf_tzoff": T.Real, "uf_sbidx": T.Int, "uf_minsum": T.Int, "uf_dur": T.Real}
 
 
 def parse_ty(spec: str):
     spec = spec.strip()
     if spec.startswith("Ref:"):
         return T.Ref(spec[4:])
-    return {"Int": T.Int, "Real": T.Real, "Bool": T.Bool, "DT": T.DT}[spec]
+    return {"Int": T.Int, "Real": T.Real, "Bool": T.Bool, "DT": T.DT, "Str": T.Str}[spec]
 
 
 # -----------------------------------------------------------------------------
